@@ -48,6 +48,7 @@ def gen_module(rng, idx):
     """-> (source, [(funcname, stmts, wants)])"""
     src = ['TRACE = []', gendoc.PRELUDE, '']
     docs = []
+    used_special = set()
     for j in range(rng.randint(1, 6)):
         n = rng.randint(1, 6)
         stmts = []
@@ -60,12 +61,20 @@ def gen_module(rng, idx):
         if rng.random() < 0.15:
             text = '>>> # xdoctest: +SKIP\n' + text if not text.startswith(('Summary', ' ')) and text.startswith('>>>') else text
         name = 'fn%d_%d' % (idx, j)
+        if rng.random() < 0.12 and not any(n in used_special for n in ('dump', 'all')):
+            # a callable called like a command word of the runner (a serialisation module has load/dump)
+            name = rng.choice(['dump', 'all'])
+            used_special.add(name)
+        disabled = False
+        if rng.random() < (0.5 if name in ('dump', 'all') else 0.1) and text.startswith('>>>'):
+            text = '>>> # %s\n' % rng.choice(['DISABLE_DOCTEST', 'SCRIPT', 'unstable', 'FAILING']) + text
+            disabled = True         # force-disabled by the documented first-line rule: no test function for it
         first_prompt = next((l.strip() for l in text.split('\n') if l.strip().startswith('>>>')), '')
-        # force-disabled by the documented rule: one of the legacy words in a comment on the FIRST line of the doctest
-        if FIRST_LINE_DISABLE.match(first_prompt):
+        if FIRST_LINE_DISABLE.match(first_prompt) and not disabled:
             continue
         src += ['def %s():' % name, '    r"""'] + ['    ' + l if l else l for l in text.split('\n')] + ['    """', '']
-        docs.append((name, stmts, wants))
+        if not disabled:
+            docs.append((name, stmts, wants))
     return '\n'.join(src) + '\n', docs
 
 
